@@ -706,8 +706,12 @@ class StmtMixin(object):
 
     # list mutation (overrides the concrete versions when inside symbolic loops)
     def m_ListV_append(self, base, args, kwargs, node):
-        if self.guard_conds(getattr(base, "birth", 0)):
-            self.err(node, "append under a symbolic condition")
+        conds = self.guard_conds(getattr(base, "birth", 0))
+        if conds:
+            # the item is appended on some paths only: kept as a guarded piece, which only ''.join() knows how to use
+            tail = base.__dict__.setdefault("tail", [])
+            tail.append(SeqV("guarded", conds=list(conds), part=ListV([args[0]], "list")))
+            return NONE
         if self.loop_stack and self._is_outer_list(base):
             tail = base.__dict__.setdefault("tail", [])
             tail.append(ListV([args[0]], "list"))
